@@ -510,6 +510,28 @@ func HarnessC17Important() {
 	checkComposite(s, d)
 }
 
+// HarnessC17OneOf: oneOf / anyOf of three alternatives in every order (failing alternatives before,
+// between and after the valid ones; none, one or several valid): the one-shot composite lists exactly
+// the messages of the validator object's result.
+func HarnessC17OneOf() {
+	leaves := []spec.Schema{schemaOfType("string"), schemaOfType("integer"), schemaOfType("number"), strSchema("", 3), {}}
+	s := &spec.Schema{}
+	alts := []spec.Schema{leaves[verifChoose(5)], leaves[verifChoose(5)], leaves[verifChoose(5)]}
+	if verifBool() {
+		s.OneOf = alts
+	} else {
+		s.AnyOf = alts
+	}
+	d := []interface{}{3.0, 3.5, "ab", "abcd", nil}[verifChoose(5)]
+	if verifBool() { // ... also one level down
+		inner := *s
+		s = &spec.Schema{}
+		s.Properties = map[string]spec.Schema{"a": inner}
+		d = map[string]interface{}{"a": d}
+	}
+	checkComposite(s, d)
+}
+
 func checkComposite(s *spec.Schema, d interface{}) {
 	reg := &verifRegistry{}
 	res := NewSchemaValidator(s, nil, "", reg).Validate(d)
